@@ -459,7 +459,7 @@ func genDiff(t *rapid.T) DiffScript {
 	s.Prefix = rapid.SampledFrom([]string{"p", "foo", "foo/bar", "a/b/c"}).Draw(t, "prefix")
 	cfg := hist.Config{MaxOps: 30, ValidRepos: 3, InvalidRepos: true, Uploads: true, Mismatch: true, BadManifests: true, Retype: true,
 		Deletes: true, Lists: true, UnknownResumeID: true, MaxSmall: 30,
-		RepoPool: []string{"x", "x/y", "fooey", "ey/x", "a", "other"}}
+		RepoPool: []string{"x", "x/y", "fooey", "ey/x", "a", "other", "a-b", "a.b", "x-1"}}
 	s.Nested = rapid.IntRange(0, 3).Draw(t, "nested") == 0
 	s.Hist = hist.Gen(cfg)(t)
 	// replace the malformed names by ones that try to leave the prefix
